@@ -382,3 +382,16 @@ Definition e_drun (v : uval) : uval :=
 (* [objects; setups; handled; got] *)
 Definition e_P10 (v : uval) : uval :=
   vbool (P10 (getnat (arg 0 v)) (getnat (arg 1 v)) (getnatpairs (arg 2 v)) (getnatpairs (arg 3 v))).
+
+(* ---- C11 ---- *)
+From PV Require Import Model.Conn Spec.C11.
+Definition getcin (v : uval) : cycle_in := mkCin (getnat (arg 0 v)) (getnat (arg 1 v)).
+Definition vcout (o : cycle_out) : uval :=
+  VL [vlist vnat (co_down o); vnat (co_closes o); vlist (fun p => VL [vN (fst p); vbool (snd p)]) (co_opens o);
+      vnat (co_startmaster o); vlist vnat (co_up o); vnat (co_producers o); vnat (co_consumers o)].
+Definition getcout (v : uval) : cycle_out :=
+  mkCout (map getnat (getL (arg 0 v))) (getnat (arg 1 v)) (map (fun p => (getN (arg 0 p), getbool (arg 1 p))) (getL (arg 2 v)))
+         (getnat (arg 3 v)) (map getnat (getL (arg 4 v))) (getnat (arg 5 v)) (getnat (arg 6 v)).
+Definition e_run_conn (v : uval) : uval := vlist vcout (run_conn (getbool (arg 0 v)) (map getcin (getL (arg 1 v)))).
+(* [cycles in; observed cycles out] *)
+Definition e_P11 (v : uval) : uval := vbool (P11 (map getcin (getL (arg 0 v))) (map getcout (getL (arg 1 v)))).
